@@ -241,6 +241,9 @@ func c04EndToEnd(c CaseC04) *hx.Failure {
 		}
 		ph, err := pes.NewPESHeader(hb)
 		if err != nil {
+			if c.FlipPTS != 0 || (mode == 3 && c.FlipDTS != 0) {
+				continue // a parser may insist on the prefix code / marker bits of a header; if it decodes, the value bits decide
+			}
 			return hx.Failf("e2e-pes", "NewPESHeader failed on a well-formed header: %v", err)
 		}
 		if !ph.HasPTS() || ph.PTS() != c.PTS {
@@ -257,13 +260,13 @@ func c04EndToEnd(c CaseC04) *hx.Failure {
 		for k := 14; k <= len(hb); k++ {
 			ph, err := pes.NewPESHeader(hb[:k])
 			if err != nil {
-				return hx.Failf("e2e-pes-cut", "NewPESHeader failed on the first %d bytes of a PES packet start: %v", k, err)
+				continue // refusing an incomplete header is fine; reporting a wrong time for it is not
 			}
-			if !ph.HasPTS() || ph.PTS() != c.PTS {
-				return hx.Failf("e2e-pes-cut-pts", "first %d of %d header bytes: PTS = %d (HasPTS=%v), want %d", k, len(hb)-1, ph.PTS(), ph.HasPTS(), c.PTS)
+			if ph.HasPTS() && ph.PTS() != c.PTS {
+				return hx.Failf("e2e-pes-cut-pts", "first %d of %d header bytes: HasPTS is true but PTS() = %d, the field (complete in these bytes) carries %d", k, len(hb)-1, ph.PTS(), c.PTS)
 			}
-			if k >= 19 && (!ph.HasDTS() || ph.DTS() != c.DTS) {
-				return hx.Failf("e2e-pes-cut-dts", "first %d of %d header bytes: DTS = %d (HasDTS=%v), want %d", k, len(hb)-1, ph.DTS(), ph.HasDTS(), c.DTS)
+			if k >= 19 && ph.HasDTS() && ph.DTS() != c.DTS {
+				return hx.Failf("e2e-pes-cut-dts", "first %d of %d header bytes: HasDTS is true but DTS() = %d, the field (complete in these bytes) carries %d", k, len(hb)-1, ph.DTS(), c.DTS)
 			}
 		}
 	}
